@@ -7,7 +7,8 @@
    oracle for the signing oracle: a signature made with a key verifies under that key
    (and is in the supported format, i.e. its identifier is not 0). Nothing else is assumed
    about ECDSA or the hash. [one_second] is one second in the clock ticks of the model. *)
-From FlexVerif Require Import Base.Prelude Model.Sec Model.SecSpec Proofs.SecProofs Proofs.SecSignProofs.
+From FlexVerif Require Import Base.Prelude Model.Sec Model.SecSpec Model.SecListen Proofs.SecProofs Proofs.SecSignProofs
+  Proofs.SecListenProofs.
 
 (* ---- acceptance: sign, then verify at any receiver that knows the ticket or, when the
    message carries the certificate, can chain it to its own trusted authorities ---- *)
@@ -149,6 +150,76 @@ Theorem C05_ca_wf_always :
     ca_wf (st_store (final hash8 sig_ok sign enc_tbs init_station ops)).
 Proof. exact ca_wf_history. Qed.
 Print Assumptions C05_ca_wf_always.
+
+(* ---- receivers configured without a sign service (VerifyService(backend, library): listen-only station,
+   road-side monitor; Model/SecListen.v). Whatever SN-VERIFY.confirm a full station gives, a station with the
+   same certificate library and no sign service gives the same; its sign state is never touched; it learns
+   the same tickets. So the acceptance theorems above hold at such receivers for every message, whatever
+   P2PCD fields it carries ---- *)
+Theorem C05_listen_only_same_report :
+  forall (hash8 : cert -> Z) (sig_ok : Z -> Z -> Z -> bool) (R : station) (m : msg) (code h p : Z),
+    snd (verify_msg hash8 sig_ok R m) = RVerify code h p ->
+    snd (verify_msg_lo hash8 sig_ok R m) = RVerify code h p.
+Proof. exact listen_only_report. Qed.
+Print Assumptions C05_listen_only_same_report.
+
+Theorem C05_listen_only_state :
+  forall (hash8 : cert -> Z) (sig_ok : Z -> Z -> Z -> bool) (R : station) (m : msg),
+    st_sign (fst (verify_msg_lo hash8 sig_ok R m)) = st_sign R /\
+    (t_reqcert (m_tbsd m) = None ->
+     st_store (fst (verify_msg_lo hash8 sig_ok R m)) = st_store (fst (verify_msg hash8 sig_ok R m))).
+Proof. exact listen_only_state. Qed.
+Print Assumptions C05_listen_only_state.
+
+Theorem C05_sign_then_verify_cam_listen_only :
+  forall (hash8 : cert -> Z) (sig_ok : Z -> Z -> Z -> bool) (sign : Z -> Z -> Z) (enc_tbs : tbsdata -> Z),
+    (forall k t, sig_ok k t (sign k t) = true) -> (forall k t, sign k t <> 0) ->
+    forall (S R : station) (now psid gen payload : Z) (S' : station) (m : msg),
+      sign_cam hash8 sign enc_tbs S now psid gen payload = (S', RMsg m) ->
+      ca_wf (st_store S) -> psid <> 37 -> payload <> 0 ->
+      forall c : cert,
+        (exists e, present_at (st_store S) psid = Some e /\ e_cert e = c) ->
+        usable c -> valid_at c gen = true ->
+        receiver_ready hash8 sig_ok (st_store R) c (m_signer m) ->
+        verify_msg_lo hash8 sig_ok R m =
+        (mkStation (st_store (fst (verify_msg_lo hash8 sig_ok R m))) (st_sign R), RVerify R_SUCCESS (hash8 c) payload).
+Proof. exact listen_only_accepts_cam. Qed.
+Print Assumptions C05_sign_then_verify_cam_listen_only.
+
+Theorem C05_sign_then_verify_denm_listen_only :
+  forall (hash8 : cert -> Z) (sig_ok : Z -> Z -> Z -> bool) (sign : Z -> Z -> Z) (enc_tbs : tbsdata -> Z),
+    (forall k t, sig_ok k t (sign k t) = true) -> (forall k t, sign k t <> 0) ->
+    forall (S R : station) (psid gen payload : Z) (S' : station) (m : msg),
+      sign_denm sign enc_tbs S psid gen payload = (S', RMsg m) -> payload <> 0 ->
+      forall c : cert,
+        (exists e, present_at (st_store S) psid = Some e /\ e_cert e = c) ->
+        usable c -> valid_at c gen = true ->
+        knows hash8 sig_ok (st_store R) c \/ can_learn hash8 sig_ok (st_store R) c ->
+        snd (verify_msg_lo hash8 sig_ok R m) = RVerify R_SUCCESS (hash8 c) payload.
+Proof. exact listen_only_accepts_denm. Qed.
+Print Assumptions C05_sign_then_verify_denm_listen_only.
+
+Theorem C05_sign_then_verify_generic_listen_only :
+  forall (hash8 : cert -> Z) (sig_ok : Z -> Z -> Z -> bool) (sign : Z -> Z -> Z) (enc_tbs : tbsdata -> Z),
+    (forall k t, sig_ok k t (sign k t) = true) -> (forall k t, sign k t <> 0) ->
+    forall (S R : station) (psid gen payload : Z) (S' : station) (m : msg),
+      sign_other hash8 sign enc_tbs S psid gen payload = (S', RMsg m) -> psid <> 37 -> payload <> 0 ->
+      forall c : cert,
+        (exists e, present_at (st_store S) psid = Some e /\ e_cert e = c) ->
+        usable c -> valid_at c gen = true ->
+        knows hash8 sig_ok (st_store R) c ->
+        snd (verify_msg_lo hash8 sig_ok R m) = RVerify R_SUCCESS (hash8 c) payload.
+Proof. exact listen_only_accepts_other. Qed.
+Print Assumptions C05_sign_then_verify_generic_listen_only.
+
+(* a network none of whose stations is listen-only is the network of Model/Sec.v (so the late-joiner theorem
+   speaks about the configured network too) *)
+Theorem C05_net_without_listen_only :
+  forall (hash8 : cert -> Z) (sig_ok : Z -> Z -> Z -> bool) (sign : Z -> Z -> Z) (enc_tbs : tbsdata -> Z)
+         (net : list station) (i : nat) (o : op) (rcv : list nat),
+    net_step_cfg hash8 sig_ok sign enc_tbs [] net i o rcv = net_step hash8 sig_ok sign enc_tbs net i o rcv.
+Proof. exact net_step_cfg_nil. Qed.
+Print Assumptions C05_net_without_listen_only.
 
 (* ---- non-vacuity: the premises are satisfiable, and a concrete two-station run ---- *)
 Definition ex_ok (_ _ _ : Z) : bool := true.
